@@ -1,6 +1,7 @@
 """C15 - serializer combinators round-trip every value they accept"""
 import json
 import multiprocessing as mp
+from harness.par import RobustPool
 
 from harness.common import Check, NPROC, chunks, write_ndjson
 from harness.tlc import run_tlc, MachineryError
@@ -70,7 +71,7 @@ def run(tier, seed):
     chk.add_tlc(res)
     cases = [(r["id"], r["case"]) for r in sorted(res.records, key=lambda r: r["id"])]
     spec = {r["id"]: r for r in res.records}
-    with mp.get_context("fork").Pool(NPROC) as pool:
+    with RobustPool(NPROC) as pool:
         outs = pool.map(work, chunks(cases, NPROC * 4))
     recs = [x for o in outs for x in o]
     path = chk.dir / "roundtrips.ndjson"
